@@ -632,11 +632,12 @@ impl World {
                         .push((n.mdate, n._signature.clone(), s));
                 }
                 if let Some(d) = getn(kv, "dsig") {
+                    // identical content signs identically: the first number given to those bytes stays
                     if let Some(l) = q.node_log.first() {
-                        c.sigs.insert(l.signature.clone(), d);
+                        c.sigs.entry(l.signature.clone()).or_insert(d);
                     }
                     if let Some(l) = q.edge_log.first() {
-                        c.sigs.insert(l.signature.clone(), d);
+                        c.sigs.entry(l.signature.clone()).or_insert(d);
                     }
                 }
                 let what = if !q.node_log.is_empty() || !q.edge_log.is_empty() {
